@@ -1,5 +1,6 @@
 """C05 — parallel tempering keeps every replica at its own thermal distribution (partial by nature:
 invariance is proved, ergodicity is not a theorem)."""
+from checks import big_scale
 from checks import pure_fns
 from checks import scale_inv
 LEAN_TARGETS = ["QmcProps.C05", "drv_c05", "QmcProps.C02", "drv_c02", "drv_c04"]
@@ -69,4 +70,5 @@ def main(ck):
         ck.notes.append("partial: the theorem is invariance of the product law under the kernels the code implements (acceptance tied to the code by C10 bisection); 'samples exactly' additionally needs ergodicity")
     scale_inv.run(ck, "c05")   # power-of-two unit change: identical trajectory, energies exactly scaled (model-free twin oracle)
     scale_inv.run(ck, "c08", tags=['C08'])   # a broken diagonal update (C08) breaks each replica's equilibrium, i.e. this property too
+    big_scale.run(ck, "manybonds.full_ladder", tags=["C10"])   # large-scale regime (>65536 bonds/ops/slots, release semantics): model-free oracles of the property statements
     return ck.finish(RULE)
